@@ -130,7 +130,7 @@ func runLive(t *chaingen.Tree, cs Case, crashAt int, finalIdx int) (lo liveOutco
 		fail("c03-twin-failed", "%v", err)
 		return
 	}
-	if f, _ := storeobs.CompareWithTwin(view, lin, false); f != nil {
+	if f, _ := storeobs.CompareWithTwin(view, lin, false, nil); f != nil {
 		fail("c03-image-"+strings.TrimPrefix(f.Kind, "c02-"), "the reopened database is not consistent with the chain of its tip %d: %s", tip.Idx, f.Detail)
 		return
 	}
